@@ -43,7 +43,7 @@ func (ni *Native) Match(input MatchInput) (bool, error) {
 
 // Update change the item with given expression and attributes
 func (ni *Native) Update(input UpdateInput) error {
-	updater, found := ni.updateExpressions[input.TableName+"|"+hashExpressionKey(input.Expression)]
+	updater, found := ni.updateExpressions[registryKey(input.TableName, input.Expression)]
 	if !found {
 		return fmt.Errorf(
 			"%w: updater not found for %q expression in table %q",
@@ -73,11 +73,11 @@ func (ni *Native) getMatcher(tablename, expression string, kind ExpressionType) 
 
 	switch kind {
 	case ExpressionTypeKey:
-		matcher, found = ni.keyExpressions[tablename+"|"+hashExpressionKey(expression)]
+		matcher, found = ni.keyExpressions[registryKey(tablename, expression)]
 	case ExpressionTypeFilter:
-		matcher, found = ni.filterExpressions[tablename+"|"+hashExpressionKey(expression)]
+		matcher, found = ni.filterExpressions[registryKey(tablename, expression)]
 	case ExpressionTypeConditional:
-		matcher, found = ni.writeCondExpressions[tablename+"|"+hashExpressionKey(expression)]
+		matcher, found = ni.writeCondExpressions[registryKey(tablename, expression)]
 	}
 
 	if !found {
@@ -106,23 +106,30 @@ func isExpressionSpace(r rune) bool {
 	return r == ' ' || r == '\t' || r == '\n' || r == '\r'
 }
 
+// registryKey is the key of a registration: table and normalized expression, joined by a character
+// that occurs in neither (a "|" would let the table "a|b" with the expression "c" answer for the
+// table "a" with the expression "b|c")
+func registryKey(tablename, expression string) string {
+	return tablename + "\x00" + hashExpressionKey(expression)
+}
+
 // AddUpdater add expression updater to use on key or filter queries
 func (ni *Native) AddUpdater(tablename string, expr string, updater UpdaterFunc) {
-	ni.updateExpressions[tablename+"|"+hashExpressionKey(expr)] = updater
+	ni.updateExpressions[registryKey(tablename, expr)] = updater
 }
 
 // AddMatcher add expression matcher to use on key or filter queries
 func (ni *Native) AddMatcher(tablename string, t ExpressionType, expr string, matcher MatcherFunc) {
 	// TODO validate the expresion(expr)
-	key := hashExpressionKey(expr)
+	key := registryKey(tablename, expr)
 
 	switch t {
 	case ExpressionTypeKey:
-		ni.keyExpressions[tablename+"|"+key] = matcher
+		ni.keyExpressions[key] = matcher
 	case ExpressionTypeFilter:
-		ni.filterExpressions[tablename+"|"+key] = matcher
+		ni.filterExpressions[key] = matcher
 	case ExpressionTypeConditional:
-		ni.writeCondExpressions[tablename+"|"+key] = matcher
+		ni.writeCondExpressions[key] = matcher
 	default:
 		panic("NativeInterpreter: unsupported expression type")
 	}
